@@ -12,12 +12,12 @@ CLAIMED = {
 
 CLAIMED["C04"] = dict(
    text="Bounded model checking of the real RollCommon / RollCoC / RollFate SSA with every die a symbolic value (Roll replaced by the contract C05 establishes): for all sides, keep/drop counts, min/max clamps (64-bit symbols) and all dice outcomes, the dice shown in the detail text are exactly the rolled (clamped) dice, the kept count follows the rule, kept dice are the extreme ones and the total is the sum of the kept dice; CoC result equals the best/worst candidate of the shown digits. The detail text is handled as a symbolic rope and parsed by the oracle.",
-   note="times <= 3 (quick) / 4 (thorough), CoC extra dice <= 2/3, magnitudes <= 2^40 so the true sum cannot overflow, min<=max when both given. VM-level parameter validation (VH_C04_params): 15 dice forms with parameters over {64-bit symbol, float, string, null}; legal-accept side limited to values <= 1000. Outcomes of WoD and Double Cross round loops are not covered (their accounting is in C07). Trusted: Roll contract (C05), gosymx rope model of fmt/strconv, solvers.",
+   note="times <= 3 (quick) / 4 (thorough), CoC extra dice <= 2/3, magnitudes <= 2^40 so the true sum cannot overflow, min<=max when both given. VM-level parameter validation (VH_C04_params): 15 dice forms with parameters over {64-bit symbol, float, string, null}; legal-accept side limited to values <= 1000. WoD and Double Cross round loops (VH_C04_wod, VH_C04_dc): pool <= 3 (quick) / 4 (thorough), at most 6 / 9 dice over all rounds (longer explosions outside the claim), sides / threshold / add-line symbolic; Double Cross result claimed only for critical line <= 11 or above the sides. Trusted: Roll contract (C05), gosymx rope model of fmt/strconv, solvers.",
    technique="symbolic execution of go/ssa + SMT (wrapped-Int LIA), function summary for Roll",
    ref="DESIGN.md §5 C04")
 CLAIMED["C15"] = dict(
-   text="Bounded model checking (2-safety style): RollCommon, RollCoC and RollFate are executed under modes -1, 0, +1 with identical symbolic parameters; for all parameter values and all dice outcomes min <= random <= max is discharged by SMT, the XdY bounds are shown to be attained by all-lowest / all-highest faces, and modes +-1 are shown to consume no generator output.",
-   note="Same bounds as C04. Known finding recorded: CoC penalty dice in min-mode are not a lower bound (known_findings.json). Sums/products of terms through the VM are not yet covered.",
+   text="Bounded model checking (2-safety style): RollCommon, RollCoC and RollFate are executed under modes -1, 0, +1 with identical symbolic parameters; for all parameter values and all dice outcomes min <= random <= max is discharged by SMT, the XdY bounds are shown to be attained by all-lowest / all-highest faces, and modes +-1 are shown to consume no generator output. Through the VM (VH_C15_vm): 15 programs monotone in their dice with the dice at top level, inside (nested) functions, computed values, a loop, a conditional and the default-sides expression: min/max runs consume no generator output, leave the generator state unchanged and give the expected attained bounds; the random run with symbolic dice is bracketed (SMT).",
+   note="Same bounds as C04. Known finding recorded: CoC penalty dice in min-mode are not a lower bound (known_findings.json). VM-level programs are enumerated (15).",
    technique="symbolic execution of go/ssa + SMT, three-run relational harness",
    ref="DESIGN.md §5 C15")
 
@@ -38,7 +38,7 @@ CLAIMED["C12"] = dict(
    ref="DESIGN.md §5 C12")
 
 CLAIMED["C16"] = dict(
-   text="Bounded model checking over symbolic source text: every input of n bytes (quick: 2 bytes over all of ASCII and 3 bytes over the dice alphabet; thorough: 3 / 4) runs through the real PEG engine with the configuration flags as symbolic booleans; for each accepted path the compiled bytecode (including nested function / computed bodies) is inspected and 'a family / statement / operator opcode is present' implies 'its flag admits it' is a verification condition decided by SMT for all flag values. Macro harness: #EnableDice macros in every position with symbolic initial flags leave Config unchanged and do not leak into the next evaluation.",
+   text="Bounded model checking over symbolic source text: every input of n bytes (quick: 2 bytes over all of ASCII and 3 bytes over the dice alphabet; thorough: 3 / 4) runs through the real PEG engine with the configuration flags as symbolic booleans; for each accepted path the compiled bytecode (including nested function / computed bodies) is inspected and 'a family / statement / operator opcode is present' implies 'its flag admits it' is a verification condition decided by SMT for all flag values. Macro harness: #EnableDice macros in every position with symbolic initial flags leave Config unchanged and do not leak into the next evaluation. st harness: parenthesised values in 8 positions of ^st commands (where the grammar pushes and pops the parser's copy of the flags) holding 14 gated constructs or 2 / 3 symbolic bytes, flags symbolic.",
    note="Inputs longer than n bytes are outside the claim (the 20-byte macro cannot occur in them, so 'lacking an enabling macro' holds trivially; macros are covered by the concrete macro programs). Flags are symbolic in two groups (Enable* or Disable*), not all seven at once. Syntax-error formatting is stubbed in the gate harnesses (covered by C19).",
    technique="symbolic execution of the PEG parser on symbolic bytes + SMT over flag booleans",
    ref="DESIGN.md §5 C16")
@@ -55,14 +55,14 @@ CLAIMED["C08"] = dict(
    technique="symbolic execution of the PEG parser on symbolic bytes + abstract interpretation of the emitted bytecode",
    ref="DESIGN.md §5 C08")
 CLAIMED["C13"] = dict(
-   text="Bounded model checking over symbolic text: texts of n code points (3 quick / 4 thorough) over an alphabet of all four delimiters, backslash, braces, percent, control characters and multi-byte runes are escaped by the documented rules and run through the real parser and VM in the four quote styles; 'the literal evaluates to exactly the text' is a byte-wise SMT verification condition. Templates with two holes (8 kinds of embedded code) and symbolic literal segments: value is the in-order concatenation, embedded assignments take effect, one value is left on the stack; nesting depth 1..21.",
+   text="Bounded model checking over symbolic text: texts of n code points (3 quick / 4 thorough) over an alphabet of all four delimiters, backslash, braces, percent, control characters and multi-byte runes are escaped by the documented rules and run through the real parser and VM in the four quote styles; 'the literal evaluates to exactly the text' is a byte-wise SMT verification condition. Templates with two holes (8 kinds of embedded code) and symbolic literal segments: value is the in-order concatenation, embedded assignments take effect, one value is left on the stack; nesting depth 1..21. Holes over variables (array, dict, string, symbolic integers), all pairs / triples incl. the same container shown twice: the value is the concatenation of the segments and each hole's string form as evaluated alone.",
    note="The template delimiter itself cannot be written inside its own template style (no escape exists) and is excluded there. An if-block hole contributes no text (pinned by the test suite).",
    technique="symbolic execution of parser + VM on symbolic bytes + SMT string equality",
    ref="DESIGN.md §5 C13")
 
 CLAIMED["C18"] = dict(
-   text="Bounded model checking of the st command: lists of 1..2 (quick) / 3 (thorough) attribute edits built from every accepted spelling (11 assignment spellings incl. quoted / namespaced names, '*' and '*k' multipliers, parenthesised values; 7 modification spellings for + += - -=) and 4 separators, with the numeric values as symbolic decimal digits, run through the real parser and VM; the callback log (count, order, kind, name, operator, value, multiplier) is compared with the written list as SMT verification conditions over the digit symbols.",
-   note="Values are 1-2 digit integers (dice, floats and general expressions as values are covered only through the parenthesised form); lists longer than 3 edits and mixed spellings beyond the enumerated forms are outside. 'Nothing else is reinterpreted as an edit' is checked only as 'the number of callbacks equals the number of written edits and the list is consumed entirely'.",
+   text="Bounded model checking of the st command: lists of 1..2 (quick) / 3 (thorough) attribute edits built from every accepted spelling (11 assignment spellings incl. quoted / namespaced names, '*' and '*k' multipliers, parenthesised values; 7 modification spellings for + += - -=) and 4 separators, with the numeric values as symbolic decimal digits, run through the real parser and VM; the callback log (count, order, kind, name, operator, value, multiplier) is compared with the written list as SMT verification conditions over the digit symbols. Long lists (3..4 quick, 3..6 thorough edits) with the first spelling and separator symbolic choices and the following ones taken in rotation.",
+   note="Values are 1-2 digit integers (dice, floats and general expressions as values are covered only through the parenthesised form); lists longer than 6 edits, and the full spelling product beyond 2 (quick) / 3 (thorough) edits, are outside. 'Nothing else is reinterpreted as an edit' is checked only as 'the number of callbacks equals the number of written edits and the list is consumed entirely'.",
    technique="symbolic execution of parser + VM with symbolic digit bytes + SMT",
    ref="DESIGN.md §5 C18")
 
@@ -73,7 +73,7 @@ CLAIMED["C03"] = dict(
    ref="DESIGN.md §5 C03")
 
 CLAIMED["C02"] = dict(
-   text="Differential bounded model checking against a definitional semantics executed by the same engine on the same symbols: (a) sixteen binary operators x {int, float} operand kinds with 64-bit / Float64 payloads as solver symbols and IgnoreDiv0 both ways, evaluated through the real parser and VM and compared with a reference written from the language guide (value, result type, or 'error prescribed'); (b) 40 programs covering precedence, grouping, short-circuit operators, ternary / multi-arm conditions, if / else-if, while with break / continue, functions and scoping, computed values, aliasing, negative indices, slices and slice assignment, container equality, whitespace variants and an erroring statement, with integer variables as 64-bit symbols and a reference closure each, evaluated twice on the same VM.",
+   text="Differential bounded model checking against a definitional semantics executed by the same engine on the same symbols: (a) sixteen binary operators x {int, float} operand kinds with 64-bit / Float64 payloads as solver symbols and IgnoreDiv0 both ways, evaluated through the real parser and VM and compared with a reference written from the language guide (value, result type, or 'error prescribed'); (b) 50 programs covering precedence, grouping, short-circuit operators, ternary / multi-arm conditions, if / else-if, while with break / continue (also nested, with break / continue before the inner loop), functions and scoping, computed values, aliasing, negative indices, slices and slice assignment, container equality, whitespace variants and an erroring statement, with integer variables as 64-bit symbols and a reference closure each, evaluated twice on the same VM.",
    note="Power (**) is uninterpreted; programs are enumerated (the solver quantifies over the variable values, not over program shapes); dice are outside (C04/C15). Float equality modulo NaN payload. Known defects fixed: dict equality after enumeration.",
    technique="differential symbolic execution (implementation vs reference) + SMT (BV + FP)",
    ref="DESIGN.md §5 C02")
